@@ -6,6 +6,19 @@
 #include <gmp.h>
 #include <omp.h>
 
+#ifdef GOLDILOCKS_VERIF
+// verification hook (coverage evidence only): weak event sink, a no-op unless a monitor defines it
+extern "C" void goldilocks_verif_event(const char *tag, u_int64_t a, u_int64_t b, u_int64_t c, u_int64_t d) __attribute__((weak));
+#define GOLDILOCKS_VERIF_EVENT(tag, a, b, c, d)                \
+    do                                                         \
+    {                                                          \
+        if (goldilocks_verif_event)                            \
+            goldilocks_verif_event(tag, a, b, c, d);           \
+    } while (0)
+#else
+#define GOLDILOCKS_VERIF_EVENT(tag, a, b, c, d)
+#endif
+
 #define NUM_PHASES 3
 #define NUM_BLOCKS 1
 
@@ -154,6 +167,7 @@ public:
     inline void computeR(int N)
     {
         u_int64_t domainPow = log2(N);
+        GOLDILOCKS_VERIF_EVENT("computeR", (u_int64_t)N, domainPow, rSize, 0);
         if (r != NULL)
         {
             delete[] r;
